@@ -112,6 +112,7 @@ fn opts_for(prop: &str, variant: &str, rng: &mut Rng, tier: Tier) -> WsOpts {
         }
         "C16" => {
             o.same_file_dups = rng.chance(300);
+            o.file.class_override_per_mille = 350;
             o.file.alias = rng.chance(300);
             o.file.assign_style = rng.chance(400);
             o.dep_cycles = rng.chance(600);
